@@ -109,24 +109,32 @@ def parseDigits (base : Nat) (acc : Nat) (prevUs : Bool) : Str → Option Nat
       | some d => if d < base then parseDigits base (acc * base + d) false rest else none
       | none => none
 
-/-- magnitude accepted by Python's `int(x, 0)` -/
+/-- magnitude accepted by Python's `int(x, 0)`: `0x` / `0o` / `0b` prefix, else decimal where a leading zero is
+    only allowed when the whole number is zero -/
 def parseMag0 (s : Str) : Option Nat :=
   match s with
   | [] => none
-  | '0' :: p :: rest =>
-    if p == 'x' || p == 'X' then (if rest.isEmpty then none else parseDigits 16 0 false rest)
-    else if p == 'o' || p == 'O' then (if rest.isEmpty then none else parseDigits 8 0 false rest)
-    else if p == 'b' || p == 'B' then (if rest.isEmpty then none else parseDigits 2 0 false rest)
-    else match parseDigits 10 0 false s with
-      | some 0 => some 0
-      | _ => none
-  | c :: _ => if c == '_' then none else parseDigits 10 0 false s
+  | c :: t =>
+    if c == '0' then
+      match t with
+      | [] => some 0
+      | p :: rest =>
+        if p == 'x' || p == 'X' then (if rest.isEmpty then none else parseDigits 16 0 false rest)
+        else if p == 'o' || p == 'O' then (if rest.isEmpty then none else parseDigits 8 0 false rest)
+        else if p == 'b' || p == 'B' then (if rest.isEmpty then none else parseDigits 2 0 false rest)
+        else match parseDigits 10 0 false s with
+          | some 0 => some 0
+          | _ => none
+    else if c == '_' then none
+    else parseDigits 10 0 false s
 
 def withSign (f : Str → Option Nat) (s : Str) : Option Int :=
   match s with
-  | '-' :: r => (f r).map (fun n => - (Int.ofNat n))
-  | '+' :: r => (f r).map Int.ofNat
-  | r => (f r).map Int.ofNat
+  | [] => (f []).map Int.ofNat
+  | c :: r =>
+    if c == '-' then (f r).map (fun n => - (Int.ofNat n))
+    else if c == '+' then (f r).map Int.ofNat
+    else (f (c :: r)).map Int.ofNat
 
 /-- `int(x, 0)` on a string -/
 def parseAutoInt (s : Str) : Option Int := withSign parseMag0 (strip s)
@@ -219,6 +227,10 @@ def atomInt? : Atom → Option Int
   | .int i => some i
   | .str _ => none
 
+def atomAutoInt : Atom → Option Int
+  | .int i => some i
+  | .str s => parseAutoInt s
+
 def enumLookup (members : List (Str × Int)) (a : Atom) : Option Int :=
   match a with
   | .int i => if members.any (·.2 == i) then some i else none
@@ -260,7 +272,7 @@ def parse (k : Kind) (r : Raw) : Except Msg Val :=
   | .enum ms, .atom a => match enumLookup ms a with | some v => .ok (.int v) | none => .error .notMember
   | .choice cs, .atom (.str s) => if cs.contains s then .ok (.text s) else .error .notMember
   | .autoInts, .list xs =>
-    match allSome (xs.map (fun a => match a with | .int i => some i | .str s => parseAutoInt s)) with
+    match allSome (xs.map atomAutoInt) with
     | some is => .ok (.ints is) | none => .error .notInt
   | _, _ => .error .wrongShape
 
@@ -309,6 +321,8 @@ def showInt (i : Int) : Str :=
 
 def hexOf (b : Bytes) : Str := b.flatMap hexByte
 
+def dumpEntry (kv : Int × Option (List Int)) : Str × Option (List Int) := (showInt kv.1, kv.2)
+
 def dump : Val → J
   | .none => .null
   | .int i => .num i
@@ -316,9 +330,11 @@ def dump : Val → J
   | .text s => .str s
   | .bytes b => .str (hexOf b)
   | .ints l => .arr l
-  | .map m => .obj (m.map (fun (k, v) => (showInt k, v)))
+  | .map m => .obj (m.map dumpEntry)
 
 def loadKey (s : Str) : Option Int := parseDecInt s
+
+def loadEntry (kv : Str × Option (List Int)) : Option (Int × Option (List Int)) := (loadKey kv.1).map (fun i => (i, kv.2))
 
 def load (f : Field) (j : J) : Except Msg Val :=
   match j, f.kind with
@@ -329,7 +345,7 @@ def load (f : Field) (j : J) : Except Msg Val :=
   | .str s, k => parse k (.atom (.str s))
   | .arr l, k => parse k (.list (l.map Atom.int))
   | .obj m, .ranges2d =>
-    match allSome (m.map (fun (k, v) => (loadKey k).map (fun i => (i, v)))) with
+    match allSome (m.map loadEntry) with
     | some kv => .ok (.map kv)
     | none => .error .wrongShape
   | .obj _, _ => .error .wrongShape
